@@ -351,7 +351,7 @@ func runC03(c *Collector, r *Rng, thorough bool) {
 	}
 	n := 25
 	if thorough {
-		n = 1500
+		n = 250
 	}
 	for _, k := range keys {
 		signer, verifier := k.signer(), k.verifier()
